@@ -327,7 +327,7 @@ impl Profile {
     /// visiting this Node?
     fn expected_value(&self, head: &Node) -> Utility {
         assert!(head.player() == self.walker());
-        self.profiled_reach(head)
+        self.external_reach(head)
             * head
                 .leaves()
                 .iter()
@@ -340,13 +340,12 @@ impl Profile {
     /// then what would be the expected Utility of this leaf?
     fn cfactual_value(&self, head: &Node, edge: &Edge) -> Utility {
         assert!(head.player() == self.walker());
+        let ref tail = head.follow(edge).expect("valid edge to follow");
         self.external_reach(head)
-            * head
-                .follow(edge)
-                .expect("valid edge to follow")
+            * tail
                 .leaves()
                 .iter()
-                .map(|leaf| self.terminal_value(head, leaf))
+                .map(|leaf| self.terminal_value(tail, leaf))
                 .sum::<Utility>()
     }
     /// assuming we start at a given head Node,
@@ -354,7 +353,6 @@ impl Profile {
     /// how much Utility does
     /// this leaf Node backpropagate up to us?
     fn terminal_value(&self, head: &Node, leaf: &Node) -> Utility {
-        assert!(head.player() == self.walker());
         assert!(leaf.children().len() == 0);
         let probability = self.relative_reach(head, leaf);
         let conditional = self.external_reach(leaf);
@@ -421,7 +419,7 @@ impl Profile {
     /// visiting this particular leaf Node,
     /// given the distribution offered by Profile?
     fn relative_reach(&self, root: &Node, leaf: &Node) -> Probability {
-        if root.bucket() == leaf.bucket() {
+        if root.index() == leaf.index() {
             1.
         } else if let (Some(parent), Some(incoming)) = (leaf.parent(), leaf.incoming()) {
             self.relative_reach(root, &parent) * self.reach(&parent, incoming)
